@@ -111,6 +111,16 @@ def handle (ws : List String) : String :=
       | .error .groupIdMismatch => "GroupIdMismatch"
       | .error .reInitExtensionsMismatch => "ReInitExtensionsMismatch"
     | _, _, _, _ => "bad-op"
+  | ["frz", p, e] =>
+    -- the freeze after a committed ReInit: is a re-init pending, entry point (`build` = commit_internal, `process` = process_commit)
+    let pb : Option Bool := match p with | "0" => some false | "1" => some true | _ => none
+    let en : Option Resumption.CommitEntry := match e with | "build" => some .build | "process" => some .process | _ => none
+    match pb, en with
+    | some pb, some en =>
+      match Resumption.commitVerdict pb en with
+      | .ok _ => "ok"
+      | .error .groupUsedAfterReInit => "GroupUsedAfterReInit"
+    | _, _ => "bad-op"
   | ["life", nb, na, t] =>
     -- key-package lifetime against a clock (`-` = no clock): verdict on the Add
     match nb.toNat?, na.toNat?, (if t = "-" then some none else t.toNat?.map some) with
